@@ -359,6 +359,8 @@ class ModelFS:
         """What a MountedStore's copy function does: move bytes (not an operation of the store under test)."""
         if self.dead:
             raise Die()
+        if self.hook is not None:
+            self.hook(self, self.ops, "copy", src)  # an overlapping writer may run just before the copy
         s = self.lookup(src)
         if s is None:
             raise FileNotFoundError(2, "No such file or directory (model)", _key(src))
@@ -813,6 +815,8 @@ class RealFS:
             return f.read()
 
     def copy(self, src, dst):
+        if self.hook is not None:
+            self.hook(self, self.ops, "copy", src)
         data = self.content(src)
         self.ops += 1
         self.put(dst, data)
